@@ -27,6 +27,7 @@ MIME = {'Json': 'application/json', 'UrlEncoded': 'application/x-www-form-urlenc
 
 class NumStr:
     """a path/query segment seen at the value level: `numeric` (sign + digits) and its mathematical value"""
+    rust_type = 'String'
     def __init__(self, name):
         self.numeric = z3.Bool(name + '_is_numeric')
         self.val = z3.Int(name + '_value')
